@@ -87,4 +87,36 @@ Lemma legacy1_agrees_with_numpy (ts : list ptree) :
   dtype_preserved F1 (PNode ts) -> legacy1 (PNode ts) = numpy1 (PNode ts).
 Proof. intros Hp. rewrite legacy1_closed_form. apply spec_is_numpy. exact Hp. Qed.
 
+(* ---------- __array_wrap__ of power-space elements ---------- *)
+(* a result with the shape of the element is wrapped into the same space: the
+   numbers are NumPy's, converted to the dtype of the space *)
+Lemma wrap_same_shape n (s : list nat) d (r : @narr T) :
+  a_shape r = n :: s ->
+  wrap_pspace cast n s d r = Ok (WElem d (n :: s) (map (conv cast (a_dt r) d) (a_data r))).
+Proof.
+  intros Hs. unfold wrap_pspace. rewrite Hs, Nat.eqb_refl. cbn [negb].
+  rewrite Nat.sub_diag. cbn [repeat app]. rewrite shape_eqb_refl. reflexivity.
+Qed.
+(* ... and unchanged numbers when the result dtype is the dtype of the space *)
+Lemma wrap_same_shape_dtype n (s : list nat) (r : @narr T) :
+  a_shape r = n :: s ->
+  wrap_pspace cast n s (a_dt r) r = Ok (WElem (a_dt r) (n :: s) (a_data r)).
+Proof.
+  intros Hs. rewrite (wrap_same_shape n s (a_dt r) r Hs). f_equal. f_equal.
+  rewrite <- (map_id (a_data r)) at 2. apply map_ext. intros v. apply conv_same.
+Qed.
+
+(* reduce over the component axis (axis 0, NumPy's default) of a power space
+   with at least two parts of any shape: the result has the shape of ONE part
+   and can never be wrapped -- every rank, every part shape *)
+Lemma wrap_part_shape_fails n (s : list nat) d (r : @narr T) :
+  (2 <= n)%nat -> s <> [] -> a_shape r = s -> wrap_pspace cast n s d r = Err EValue.
+Proof.
+  intros Hn Hne Hs. unfold wrap_pspace. rewrite Hs. destruct s as [|m rs]; [congruence|].
+  destruct (Nat.eqb_spec m n) as [->|Hmn]; cbn [negb]; [|reflexivity].
+  cbn [length]. replace (S (length rs) - length rs)%nat with 1%nat by lia. cbn [repeat app].
+  destruct (shape_eqb (1%nat :: rs) (n :: rs)) eqn:E; [|reflexivity].
+  apply shape_eqb_eq in E. inversion E. lia.
+Qed.
+
 End LegacyProofs.
